@@ -326,6 +326,13 @@ def build(spec, cfg):
         # solvers
         is_cyc = gpath in cyc
         assemble = jac is not None
+        # semi-total approximation of a whole first-level group (affine model: a forward difference with an
+        # absolute unit step has no truncation error and, on the dyadic data, no rounding error either)
+        inside = [ci for ci, c in enumerate(comps) if c['path'].split('.')[:1] == gpath.split('.')]
+        dv_inside = any('out' in d and d['comp'] in inside for d in spec['desvars'])   # OpenMDAO rejects these
+        if cfg.get('approx') and glen == 1 and not is_cyc and not assemble and not dv_inside and \
+                any(comps[ci]['kind'] != 'ivc' for ci in inside):
+            g.approx_totals(method='fd', step=1.0, form='forward', step_calc='abs')
         if is_cyc:
             if cfg.get('nl', 'nlbgs') == 'newton':
                 g.nonlinear_solver = om.NewtonSolver(solve_subsystems=False, maxiter=30, err_on_non_converge=True,
